@@ -64,6 +64,7 @@ def config(rs, run, tier):
             http = r.choice([e for e in SINGLE if e != wire])
         docs[n] = {
             "wire": wire,
+            "be": wire == "utf-16" and r.random() < 0.5,  # big-endian byte order mark (Python itself writes little-endian)
             "decl": decl,
             "http": http,
             "as_text": r.random() < 0.2,
@@ -94,6 +95,8 @@ def wire_bytes(name, d):
     """what is on the wire: ASCII CSS + the marker bytes C3 A4 (the 'wire encoding' of a single-byte document is
     the producer's claim; the bytes are chosen to be valid under every candidate), or real UTF-16 with BOM"""
     if d["wire"] == "utf-16":
+        if d.get("be"):
+            return b"\xfe\xff" + content(name, d).encode("utf-16-be")
         return content(name, d).encode("utf-16")
     return content(name, d).replace(MARK, "\x00").encode("ascii").replace(b"\x00", b"\xc3\xa4")
 
